@@ -22,6 +22,30 @@ OBL = [("Qsx.Props.C17", "Qsx.Props.C17." + t) for t in ["step_safe", "history_s
 RAW_KEYS = ["nrows", "ncols", "nstruct", "matcols", "rowsize", "colsize", "structsize", "matcolsize"]
 
 
+def memcheck_cause(stderr):
+    """the distinct (kind of report : first frame inside the library) pairs of a memcheck log, e.g. ['uninit-cond:add_nonzero']"""
+    import re
+    kinds = [("Conditional jump or move depends on uninitialised", "uninit-cond"), ("Use of uninitialised value", "uninit-use"),
+             ("Invalid read", "invalid-read"), ("Invalid write", "invalid-write"), ("Invalid free", "invalid-free"),
+             ("Syscall param", "uninit-syscall")]
+    lines = stderr.split("\n")
+    out = []
+    for i, l in enumerate(lines):
+        for pat, tag in kinds:
+            if pat in l:
+                c = tag + ":?"
+                for m in lines[i + 1:i + 25]:
+                    f = re.search(r"(?:at|by) 0x[0-9A-Fa-f]+: (\w+) \((\w+)_(?:mpq|dbl|mpf)\.c:\d+\)", m) or re.search(r"(?:at|by) 0x[0-9A-Fa-f]+: (\w+) \((symtab|exact|eg_\w+|util|allocrus)\.c:\d+\)", m)
+                    if f:
+                        c = "%s:%s" % (tag, f.group(1))
+                        break
+                    if m.strip().endswith("=="):
+                        break
+                if c not in out:
+                    out.append(c)
+    return out or ["?"]
+
+
 def raw_of(block):
     v = proto.get(block, "raw")
     if not v:
@@ -440,7 +464,9 @@ def run(pid, tier, seed):
             v = res["vg"]
             ev.stat("memcheck-transcripts")
             if v.returncode == 97 or "Invalid read" in v.stderr or "Invalid write" in v.stderr or "uninitialised" in v.stderr:
-                rep.violation("Valgrind memcheck reports an error: " + v.stderr[-600:], dict(ctx, stderr=v.stderr[-3000:]), signature={"symptom": "memcheck", "battery": kind})
+                for cause in memcheck_cause(v.stderr):
+                    rep.violation("Valgrind memcheck reports an error (%s): %s" % (cause, v.stderr[-600:]), dict(ctx, stderr=v.stderr[-3000:]),
+                                  signature={"symptom": "memcheck", "cause": cause})
             elif not v.crashed and v.raw != ref:
                 rep.violation("the transcript under Valgrind differs from the native one", ctx, signature={"symptom": "not-reproducible", "battery": kind, "how": "valgrind"})
 
